@@ -11,7 +11,10 @@ import (
 // it knows the scenario (which user function was told to panic with which value) and nothing of the model.
 
 var pvClass = map[string]string{"nil": "nilerr", "err": "err", "str": "str", "rtidx": "rt", "rtnil": "rt", "rtdiv": "rt",
-	"rtmap": "rt", "struct": "struct", "int": "other", "ptrerr": "err", "nilptr": "other", "evil": "err", "abort": "err", "slice": "other"}
+	"rtmap": "rt", "struct": "struct", "int": "other", "ptrerr": "err", "nilptr": "other", "evil": "err", "abort": "err", "slice": "other",
+	"canc": "err.canceled", "wcanc": "err.canceled", "iscanc": "err.canceled", "joincanc": "err.canceled", "rst": "err.restart",
+	"wrst": "err.restart", "dl": "err.deadline", "wdl": "err.deadline", "cexit": "err.cleanexit", "wcexit": "err.cleanexit",
+	"moderr": "err", "nilerrptr": "err", "nilstrg": "other"}
 
 type monItem struct {
 	kind, flag string
@@ -35,12 +38,50 @@ func isBlocking(kind string) bool { return kind == "runworker" || strings.HasPre
 // hasPanicReport: a report that identifies itself as a panic, carries a value of the class and a stack trace.
 func hasPanicReport(reps, cls string) bool {
 	for _, r := range strings.Split(reps, "+") {
-		p := strings.Split(r, "/")
+		p := strings.Split(stripMod(r), "/")
 		if len(p) == 3 && p[0] == "panic" && p[2] == cls {
 			return true
 		}
 	}
 	return false
+}
+
+// stripMod removes the harness' note about the module a report names (the property does not speak of it).
+func stripMod(r string) string {
+	if i := strings.Index(r, "!mod="); i >= 0 {
+		return r[:i]
+	}
+	return r
+}
+
+func atoi(s string) int {
+	n := 0
+	for _, ch := range s {
+		if ch < '0' || ch > '9' {
+			return -1
+		}
+		n = n*10 + int(ch-'0')
+	}
+	if s == "" {
+		return -1
+	}
+	return n
+}
+
+// cntOf parses "w,t,m,g,c".
+func cntOf(s string) []int {
+	p := strings.Split(s, ",")
+	if len(p) != 5 {
+		return nil
+	}
+	out := make([]int, 5)
+	for i, x := range p {
+		out[i] = atoi(x)
+		if out[i] < 0 {
+			return nil
+		}
+	}
+	return out
 }
 
 func countPanicReports(reps string) int {
@@ -64,6 +105,37 @@ func monitor(c hxlib.Case, outs []string) (vs []hxlib.Violation) {
 	firstPanicKind := "none"
 	workStarted := false
 	outstanding := false
+	// the scenario configured the error channel itself (`chan`): reports are demanded only when the channel, as the
+	// implementation's own outputs show it (`ch=` = len of the channel after each op), had room for them
+	manual, capN, prevCh, parked, unordered := false, -1, 0, 0, false
+	var expect []string // value classes of the panic reports that were demanded and not yet seen by a `recv`
+	// room: a report made now can be delivered; then it must be (returns whether the buffer has to grow)
+	room := func() (ok, grows bool) {
+		if capN < 0 {
+			return false, false
+		}
+		if parked > 0 {
+			return true, false
+		}
+		return prevCh < capN, true
+	}
+	demand := func(sigKind, what, cls string, ch int) {
+		ok, grows := room()
+		if !ok {
+			return
+		}
+		if grows {
+			if ch < prevCh+1 {
+				add("C06:panic-not-reported:"+sigKind, fmt.Sprintf("%s; the error channel had room (%d of %d) but holds %d reports afterwards", what, prevCh, capN, ch))
+				return
+			}
+		} else {
+			parked--
+		}
+		if !unordered {
+			expect = append(expect, cls)
+		}
+	}
 	for i, l := range c.Lines {
 		if i >= len(outs) {
 			break
@@ -91,6 +163,12 @@ func monitor(c hxlib.Case, outs []string) (vs []hxlib.Violation) {
 			continue
 		}
 		fl := fields(o)
+		endAtStop := false
+		for _, it := range items {
+			if it.held && it.flag == "onstop" {
+				endAtStop = true // items ending when the module stops: their reports race with the stop routine's
+			}
+		}
 		if (op == "manage" || op == "shutdown") && strings.HasPrefix(fl["st"], "offline") {
 			// the subject module was stopped: items waiting for its context have ended
 			for _, it := range items {
@@ -99,7 +177,37 @@ func monitor(c hxlib.Case, outs []string) (vs []hxlib.Violation) {
 				}
 			}
 		}
+		chNow := atoi(fl["ch"])
 		switch op {
+		case "chan":
+			if o == "ok" && len(f) == 2 {
+				manual = true
+				capN = atoi(f[1]) // -1: unset
+			}
+		case "park":
+			if strings.HasPrefix(o, "park ok") {
+				parked++
+			} else if strings.HasPrefix(o, "park") {
+				capN = -1 // the state of the consumer is not known: nothing is demanded of the channel any more
+			}
+		case "recv", "recvn":
+			if !strings.HasPrefix(o, "recv") {
+				continue
+			}
+			if op == "recv" && !unordered {
+				for _, r := range strings.Split(fl["reps"], "+") {
+					p := strings.Split(stripMod(r), "/")
+					if len(expect) > 0 && len(p) == 3 && p[0] == "panic" && p[2] == expect[0] {
+						expect = expect[1:]
+					}
+				}
+			}
+			if op == "recvn" || (len(f) == 2 && f[1] == "all") {
+				if len(expect) > 0 && !unordered {
+					add("C06:panic-not-reported:"+firstPanicKind, fmt.Sprintf("panic reports for which the error channel had room were not received from it: %v", expect))
+				}
+				expect, unordered = nil, false
+			}
 		case "mod":
 			if len(f) >= 5 {
 				mods = append(mods, f[1:5])
@@ -109,8 +217,8 @@ func monitor(c hxlib.Case, outs []string) (vs []hxlib.Violation) {
 		case "start":
 			startOK = fl["ret"] == "nil"
 			want := false
+			prepPanic := false
 			if !mgmt {
-				prepPanic := false
 				for _, m := range mods {
 					if strings.HasPrefix(m[1], "p:") {
 						prepPanic = true
@@ -133,8 +241,23 @@ func monitor(c hxlib.Case, outs []string) (vs []hxlib.Violation) {
 			if want && fl["ret"] == "nil" {
 				add("C06:lifecycle-panic-no-error:start", "a prep/start routine panicked but Start returned nil")
 			}
-			if want && countPanicReports(fl["reps"]) == 0 {
+			if want && !manual && countPanicReports(fl["reps"]) == 0 {
 				add("C06:panic-not-reported:lifecycle", "a prep/start routine panicked but no panic report arrived on the error channel")
+			}
+			if want && manual {
+				col := 2
+				if prepPanic {
+					col = 1
+				}
+				var cand []string
+				for _, m := range mods {
+					if strings.HasPrefix(m[col], "p:") {
+						cand = append(cand, m[col][2:])
+					}
+				}
+				if len(cand) == 1 { // several: which one ran (first) is up to the pass
+					demand("lifecycle", "a prep/start routine panicked with p:"+cand[0], pvClass[cand[0]], chNow)
+				}
 			}
 			if strings.Contains(fl["reps"], "panic/module-control") && fl["ret"] == "nil" {
 				add("C06:lifecycle-panic-no-error:start", "a control routine's panic was reported but Start returned nil")
@@ -144,6 +267,9 @@ func monitor(c hxlib.Case, outs []string) (vs []hxlib.Violation) {
 				add("C06:lifecycle-panic-no-error:manage", "a control routine's panic was reported but ManageModules returned nil")
 			}
 		case "shutdown":
+			if o == "shutdown noreturn" {
+				add("C06:stop-stalled:"+firstPanicKind, "Shutdown did not return (it waits for each module no longer than the stop timeout)")
+			}
 			if !strings.HasPrefix(o, "shutdown ret=") {
 				continue
 			}
@@ -151,17 +277,25 @@ func monitor(c hxlib.Case, outs []string) (vs []hxlib.Violation) {
 				add("C06:lifecycle-panic-no-error:shutdown", "a stop routine's panic was reported but Shutdown returned nil")
 			}
 			if !mgmt && startOK {
+				var cand []string
 				for _, m := range mods {
-					if strings.HasPrefix(m[3], "p:") && (fl["ret"] == "nil" || countPanicReports(fl["reps"]) == 0) {
+					if strings.HasPrefix(m[3], "p:") && (fl["ret"] == "nil" || (!manual && countPanicReports(fl["reps"]) == 0)) {
 						add("C06:lifecycle-panic-no-error:shutdown", "stop routine of "+m[0]+" panicked; Shutdown ret="+fl["ret"]+" reps="+fl["reps"])
 					}
+					if strings.HasPrefix(m[3], "p:") {
+						cand = append(cand, m[3][2:])
+					}
+				}
+				if manual && len(cand) == 1 && !endAtStop {
+					demand("lifecycle", "a stop routine panicked with p:"+cand[0], pvClass[cand[0]], chNow)
 				}
 			}
 			if fl["slow"] != "no" {
 				add("C06:stop-stalled:"+firstPanicKind, "Shutdown had to wait for the stop timeout: managed work was still accounted as running")
 			}
 			for _, s := range strings.Split(fl["st"], ",") {
-				if s != "" && s != "offline" && s != "x" {
+				// "dead": never prepared (a dependency's prep routine failed) — nothing of it is running
+				if s != "" && s != "offline" && s != "x" && s != "dead" {
 					add("C06:module-not-stopped:"+firstPanicKind, "module status after Shutdown: "+fl["st"])
 					break
 				}
@@ -223,19 +357,52 @@ func monitor(c hxlib.Case, outs []string) (vs []hxlib.Violation) {
 			cls := pvClass[cur[2:]]
 			if isBlocking(it.kind) {
 				r := fl["ret"]
-				if !strings.HasPrefix(r, "panic:"+cls+":") || !strings.Contains(r, "val=same") || !strings.Contains(r, "stack=yes") {
+				if r == "noreturn" {
+					add("C06:run-variant-does-not-return:"+it.kind, "function panicked with "+cur+"; the blocking run variant had not returned when the harness gave up waiting")
+				} else if !strings.HasPrefix(r, "panic:"+cls+":") || !strings.Contains(r, "val=same") || !strings.Contains(r, "stack=yes") {
 					add("C06:run-variant-returns-no-panic-error:"+it.kind, "function panicked with "+cur+", returned: "+r)
 				}
 			}
-			if !hasPanicReport(fl["reps"], cls) {
+			// the counters after the panicked execution: the previous values plus what is still running (held)
+			if base, now := cntOf(firstCnt), cntOf(fl["cnt"]); base != nil && now != nil {
+				exp := append([]int{}, base[:4]...)
+				for _, other := range items {
+					if !other.held {
+						continue
+					}
+					switch {
+					case strings.HasPrefix(other.kind, "task-"):
+						exp[1]++
+					case strings.HasPrefix(other.kind, "mt-"):
+						exp[2]++
+						exp[3]++
+					default:
+						exp[0]++
+					}
+				}
+				for k := 0; k < 4; k++ {
+					if now[k] > exp[k] {
+						add("C06:counters-not-restored:"+it.kind, fmt.Sprintf("function panicked with %s; work counters (workers,tasks,microtasks,global microtasks,ctrl) afterwards: %s, previous values plus work still running: %v (sync=%s)", cur, fl["cnt"], exp, fl["sync"]))
+						break
+					}
+				}
+			}
+			if strings.HasPrefix(it.kind, "api-") && fl["http"] == "noreturn" {
+				add("C06:run-variant-does-not-return:"+it.kind, "handler panicked with "+cur+"; the request had not been answered when the harness gave up waiting")
+			}
+			if manual {
+				demand(it.kind, "function panicked with "+cur, cls, chNow)
+			} else if !hasPanicReport(fl["reps"], cls) {
 				add("C06:panic-not-reported:"+it.kind, "function panicked with "+cur+", reports on the error channel: "+fl["reps"])
 			}
-			if !strings.HasPrefix(fl["last"], "panic/") {
+			if fl["last"] == "blocked" {
+				add("C06:report-blocks:"+it.kind, "function panicked with "+cur+"; GetLastReportedError did not return: Report() is holding the reporting lock")
+			} else if !strings.HasPrefix(fl["last"], "panic/") {
 				add("C06:panic-not-reported:"+it.kind, "function panicked with "+cur+", GetLastReportedError: "+fl["last"])
 			}
 			switch {
 			case strings.HasPrefix(it.kind, "api-"):
-				if it.flag != "afterwrite" && fl["http"] != "500" {
+				if it.flag != "afterwrite" && fl["http"] != "500" && fl["http"] != "500d" { // d: the dev-mode page
 					add("C06:api-panic-status:"+it.kind, "handler panicked before writing, response status "+fl["http"])
 				}
 			case it.kind == "svc":
@@ -277,7 +444,7 @@ func monitor(c hxlib.Case, outs []string) (vs []hxlib.Violation) {
 					if isBlocking(kv[0]) && (!strings.HasPrefix(res[k], "panic:"+cls+":") || !strings.Contains(res[k], "val=same") || !strings.Contains(res[k], "stack=yes")) {
 						add("C06:run-variant-returns-no-panic-error:"+kv[0], "burst item panicked with "+last+", returned: "+res[k])
 					}
-					if strings.HasPrefix(kv[0], "api-") && res[k] != "500" {
+					if strings.HasPrefix(kv[0], "api-") && res[k] != "500" && res[k] != "500d" {
 						add("C06:api-panic-status:"+kv[0], "burst handler panicked, response status "+res[k])
 					}
 				}
@@ -285,12 +452,27 @@ func monitor(c hxlib.Case, outs []string) (vs []hxlib.Violation) {
 					add("C06:item-did-not-start:"+kv[0], "burst item "+a+": "+res[k])
 				}
 			}
-			if got := countPanicReports(fl["reps"]); got < want {
+			if manual {
+				// each of the concurrent reports is delivered while there is room
+				if capN >= 0 && parked == 0 {
+					need := prevCh + want
+					if need > capN {
+						need = capN
+					}
+					if chNow < need {
+						add("C06:panic-not-reported:burst", fmt.Sprintf("%d panics raised while the error channel held %d of %d; it holds %d afterwards", want, prevCh, capN, chNow))
+					}
+				}
+				expect, unordered = nil, true
+			} else if got := countPanicReports(fl["reps"]); got < want {
 				add("C06:panic-not-reported:burst", fmt.Sprintf("%d panics raised, %d panic reports on the error channel", want, got))
 			}
 			if fl["cnt"] != "0,0,0,0,0" {
 				add("C06:counters-not-restored:"+firstPanicKind, "after the burst had completed: cnt="+fl["cnt"])
 			}
+		}
+		if chNow >= 0 {
+			prevCh = chNow
 		}
 	}
 	if lastSettle != "" && firstCnt != "" && !outstanding && (lastSettle != firstCnt || lastSettleOthers == "dirty") {
